@@ -104,13 +104,14 @@ def run(chk, replay=None):
             shutil.rmtree(d, ignore_errors=True)
     # spellings of the key path: the file the user NAMED (relative to the working directory, as the OS resolves it) is the one that is
     # created / used / refused - whatever its first character
-    spellings = ['key.file', './key.file', '~team.key', '~keys/prod.key', '~', 'sp ace.key', 'k\u00e9y.key', 'sub/../key2.file', '-dash.key', '.hidden', 'a~b.key', '$HOME.key', '%s.key', None]
+    spellings = ['key.file', './key.file', '~/in-a-dir-named-tilde.key', '~team.key', '~keys/prod.key', '~', 'sp ace.key', 'k\u00e9y.key', 'sub/../key2.file', '-dash.key', '.hidden', 'a~b.key', '$HOME.key', '%s.key', None]
     for sp in spellings:
         for name in ('absent', 'valid', 'short'):
             d = tempfile.mkdtemp(prefix='c11p_')
             try:
                 open(os.path.join(d, 'in.log'), 'wb').write(LINES)
                 os.mkdir(os.path.join(d, 'home')); os.mkdir(os.path.join(d, 'sub')); os.mkdir(os.path.join(d, '~keys'))
+                if sp is not None and sp.startswith('~/'): os.mkdir(os.path.join(d, '~'))
                 rel = sp if sp is not None else 'anonymongo.enc.key'
                 kp = os.path.normpath(os.path.join(d, rel))
                 if name != 'absent':
@@ -149,6 +150,21 @@ def run(chk, replay=None):
             finally:
                 shutil.rmtree(d, ignore_errors=True)
     chk.streams.append({'stream': 'CLI: spellings of the key path (relative, leading ~ . - $ %, blanks, non-ASCII, default) x {absent, valid, short} x 2 runs', 'spellings': len(spellings)})
+    # Atlas input (outputs are <outputFile>.<i>): an existing valid key whose NAME resembles those outputs must be used and left untouched
+    from vlib import atlaslib, streamlib
+    import json as _json
+    hosts = ['h0.ex.net:27017', 'h1.ex.net:27017']
+    world = {'challenge': 'digest', 'cluster_st': 200, 'cluster_body': _json.dumps({'connectionStrings': {'standard': atlaslib.conn_string(hosts)}}),
+             'hosts': [{'status': 200, 'body': base64.b64encode(streamlib.gz_bytes(LINES)).decode(), 'cut': -1} for _ in hosts]}
+    for kname in ('out.log.key', 'out.log.2', 'out.log.2025-10-01.key', 'out.log.0.key', 'out.log.', 'out.log.9z', 'out.logx', 'key.file'):
+        r1 = atlaslib.run_cli(world, flags=['--encrypt', '--encryptionKeyFile', kname], pre_outs={kname: valid})
+        chk.count(); chk.nontriv(('atlas-keyname', kname))
+        case = {'input': 'Atlas', 'output_file': 'out.log', 'key_file_name': kname, 'rc': r1['rc'], 'files': sorted(r1['outs']), 'stderr': r1['stderr'].decode('utf-8', 'replace')[-200:]}
+        if r1['outs'].get(kname) != valid:
+            chk.violate('Atlas mode: an existing valid key file was removed or replaced', dict(case, key_now=str(r1['outs'].get(kname))[:60]), tags=['overwrite', 'atlas'])
+        elif r1['rc'] != 0 and kname != 'out.log.2':
+            chk.violate('Atlas mode: run with an existing valid key failed', case, tags=['usable', 'atlas'])
+    chk.streams.append({'stream': 'Atlas input: existing valid key under names that resemble <outputFile>.<i>', 'names': 8})
     if len(set(keys_seen)) != len(keys_seen):
         chk.violate('two generated keys are equal', {'n': len(keys_seen)}, tags=['rng'])
     chk.dist('generated_keys', len(keys_seen))
